@@ -205,7 +205,6 @@ class CommandMixin(object):
                 # unspecified zone (flag set by an attempt that was itself refused,
                 # or a handle whose mailbox was deleted): either answer is fine
                 self.probes["zone:flag-after-refusal"] += 1
-                cm.uncertain = True
                 self._apply_observed(cm, sub, rest)
                 return
             self.probes["err:" + val[1]] += 1
@@ -215,9 +214,6 @@ class CommandMixin(object):
                 pass
             return
         kind, arg = val[1], val[2]
-        if cm.uncertain and kind in ("claim", "release", "open", "add", "close"):
-            self._apply_observed(cm, sub, rest)
-            return
         getattr(self, "_cmd_" + kind)(cm, sub, rest, arg, now)
         if kind not in ("add",):
             self._messages_monotonic(sub.pre, sub.post, ev)
@@ -235,7 +231,7 @@ class CommandMixin(object):
         if sub.cid is not None:
             self.probes["errors_checked"] += 1
 
-    def _apply_observed(self, cm, sub, rest):
+    def _apply_observed(self, cm, sub, rest, track=True):
         """unspecified zone: follow what the server did, check only invariants"""
         t = sub.msg.get("type")
         errored = any(f.get("type") == "error" for f in rest)
@@ -253,30 +249,44 @@ class CommandMixin(object):
                 for x in (after - before).elements():
                     rec["adds"].append(x)
                 self._touch(k, sub.ev.wall, True)
-        if t == "open" and not errored and "mailbox" in sub.msg and cm.bound:
-            k = (cm.app, sub.msg["mailbox"])
-            cm.named = sub.msg["mailbox"]
-            if sub.post.mb(*k) is not None:
-                cm.held, cm.stale = True, False
-                self.subs.setdefault(k, [])
-                if cm.id not in self.subs[k]:
-                    self.subs[k].append(cm.id)
-        if t == "close" and any(f.get("type") == "closed" for f in rest):
-            cm.closed = True
-            cm.held = False
-            self._unsubscribe(cm.id, sub.ev.wall)
-        if t == "claim" and not errored:
-            cm.claimed = True
-            cm.np = sub.msg.get("nameplate")
+        app, side = cm.app, cm.side
+        if t == "open" and "mailbox" in sub.msg and cm.bound and isinstance(sub.msg["mailbox"], str):
+            mid = sub.msg["mailbox"]
+            sub.ev.notes.setdefault("_att", []).append(((app, mid), None, side))
+            if not errored:
+                cm.named = mid
+                if sub.post.mb(app, mid) is not None:
+                    sub.ev.notes.setdefault("_ok", []).append(("open", app, mid, side, cm.id))
+            else:
+                cm.open_refused = True
+        if t == "close" and cm.bound:
+            mid = sub.msg.get("mailbox", cm.named)
+            if any(f.get("type") == "closed" for f in rest):
+                cm.closed = True
+                cm.held = False
+                self._unsubscribe(cm.id, sub.ev.wall)
+                if isinstance(mid, str):
+                    sub.ev.notes.setdefault("_ok", []).append(("close", app, mid, side, cm.id))
+                    rec = self.mb_inc.get((app, mid))
+                    if rec is not None:
+                        rec["closed_sides"].add(side)
+        if t == "claim" and cm.bound and isinstance(sub.msg.get("nameplate"), str):
+            name = sub.msg["nameplate"]
+            told = [f.get("mailbox") for f in rest if f.get("type") == "claimed"]
+            pn = sub.post.np(app, name)
+            mid = told[0] if told else (pn.mailbox if pn is not None else None)
+            sub.ev.notes.setdefault("_att", []).append(((app, mid) if mid else None, (app, name), side))
+            if told:
+                cm.claimed = True
+                cm.np = name
+                sub.ev.notes.setdefault("_ok", []).append(("claim", app, name, told[0], side))
+            elif errored:
+                cm.claim_refused = True
         if t == "release" and any(f.get("type") == "released" for f in rest):
             cm.released = True
-        self._track_incarnations(sub.pre, sub.post, sub.ev)
-        # admitted sets follow the rows after a zone
-        if cm.bound:
-            for m in sub.post.mailboxes:
-                rec = self.mb_inc.get((m.app, m.id))
-                if rec is not None and m.app == cm.app:
-                    self._touch((m.app, m.id), sub.ev.wall, False)
+        if track:
+            self._track_incarnations(sub.pre, sub.post, sub.ev)
+            self._post_track(cm, sub, t, None, rest, sub.ev.wall)
 
     # -------------------------------------------------------------- commands
     def _cmd_ping(self, cm, sub, rest, arg, now):
@@ -456,7 +466,6 @@ class CommandMixin(object):
                 self._compare(sub, alts, app, ["C05", "C07"], ["C05", "C08"], "refused claim")
         else:
             self.probes["zone:np-mb-admission-differs"] += 1
-            cm.uncertain = True
             if told is None:
                 cm.claim_refused = True
             else:
@@ -521,7 +530,6 @@ class CommandMixin(object):
         verdict = self._admission(rec, side)
         if verdict is None:
             self.probes["zone:admission-order"] += 1
-            cm.uncertain = True
             if errored:
                 cm.open_refused = True
             else:
@@ -649,8 +657,7 @@ class CommandMixin(object):
         k = (app, mid)
         if cm.held and (cm.stale or cm.named != mid):
             self.probes["zone:close-through-stale-handle"] += 1
-            cm.uncertain = True
-            self._apply_observed(cm, sub, rest)
+            self._apply_observed(cm, sub, rest, track=False)
             return
         ms = spec.to_ms(sub.pre)
         rec = self.mb_inc.get(k)
@@ -667,8 +674,7 @@ class CommandMixin(object):
             verdict = self._admission(rec, side)
             if verdict is None:
                 self.probes["zone:admission-order"] += 1
-                cm.uncertain = True
-                self._apply_observed(cm, sub, rest)
+                self._apply_observed(cm, sub, rest, track=False)
                 return
             if not verdict:
                 self.probes["crowded_refusals"] += 1
